@@ -542,6 +542,33 @@ fn crash_child(mode: Mode, rec: &Recorded, dir: &Path, act: usize, phase: &'stat
 			// legal state has at most a few hundred boundaries: the caller stops on `completed`
 			completed = k > 150;
 		},
+		("open", Act::Restart) if power => {
+			// power-loss mode: recover IN PLACE, so that the interposer keeps watching the same
+			// files: the ordering rules apply to the truncations / deletions made by the recovery
+			// (rule R2: replayed table changes are flushed before a replayed log goes away) and the
+			// power-loss images are cut inside / right after the recovery
+			let d = db.take().unwrap();
+			dbutil::make_drop_legal(&d).expect("pre-drop");
+			std::mem::forget(d);
+			close_lock_fds(dir);
+			interpose::set_in_open(true);
+			parity_db::set_number_of_allowed_io_operations(k as usize);
+			let r = pv::scratch::catch(|| Db::open(&opts));
+			parity_db::set_number_of_allowed_io_operations(usize::MAX);
+			interpose::set_in_open(false);
+			bump(&mut counts, "cut_during_open", 1);
+			bump(&mut counts, "recoveries_watched_in_place", 1);
+			match r {
+				Ok(Ok(d2)) => {
+					completed = true;
+					db = Some(d2);
+				},
+				Ok(Err(_)) => {},
+				Err(p) => {
+					violations.push(J::obj().set("sig", J::s(format!("failure=open_panic_under_fault;site={}", pv::scratch::panic_site(&p)))).set("detail", J::s(format!("Db::open panicked when a file operation failed during recovery: {}", p))));
+				},
+			}
+		},
 		("open", Act::Restart) => {
 			let d = db.take().unwrap();
 			dbutil::make_drop_legal(&d).expect("pre-drop");
@@ -736,6 +763,27 @@ fn crash_child(mode: Mode, rec: &Recorded, dir: &Path, act: usize, phase: &'stat
 		std::mem::forget(d);
 	}
 	finish(completed, counts, seen, violations, evals)
+}
+
+/// Close this process's descriptors of `<dir>/lock` (the advisory lock of a handle that was
+/// leaked to simulate a crash), so that the directory can be opened again in the same process.
+fn close_lock_fds(dir: &Path) {
+	let lock = dir.join("lock");
+	let mut fds = vec![];
+	if let Ok(rd) = std::fs::read_dir("/proc/self/fd") {
+		for e in rd.flatten() {
+			if let (Ok(t), Some(n)) = (std::fs::read_link(e.path()), e.file_name().to_str().and_then(|s| s.parse::<i32>().ok())) {
+				if t == lock {
+					fds.push(n);
+				}
+			}
+		}
+	}
+	for fd in fds {
+		unsafe {
+			libc::close(fd);
+		}
+	}
 }
 
 fn bucket(k: u64) -> u64 {
